@@ -303,7 +303,9 @@ func (v *DataModelView) DrawTuple(
 					appName = path[0]
 					typeName = path[1]
 				}
-				if viewParam.Types[appName+"."+typeName] == nil && viewParam.Types[typeName] == nil {
+				// typeName alone is looked up only when there is no application to qualify it with: with one, the
+				// relationship is drawn to the alias of appName.typeName, and that must be a type of the model
+				if viewParam.Types[appName+"."+typeName] == nil && (appName != "" || viewParam.Types[typeName] == nil) {
 					v.StringBuilder.WriteString(collectionString)
 					continue
 				}
